@@ -334,6 +334,13 @@ theorem removeLayers_step (env : Env) (ls : List Layer) {st : Store} (hg : Guard
     have := ih (st := layerRemove env st l.digest) (h1.guard hg) (fun x hx => hd x (by simp [hx]))
     exact h1.trans this
 
+theorem gcOld_step (env : Env) (ls : List Layer) {st : Store} (hg : Guard env st)
+    (hd : ∀ l ∈ ls, GD env l.digest) : BlobStep env st (gcOld env st ls) := by
+  unfold gcOld
+  split
+  · exact BlobStep.refl env st
+  · exact removeLayers_step env ls hg hd
+
 theorem layerRemove_noop {env : Env} {st : Store} {d : Digest} (h : env.inUse st d = true) :
     layerRemove env st d = st := by
   unfold layerRemove; simp [h]
@@ -501,6 +508,12 @@ theorem removeLayers_mans (env : Env) (ls : List Layer) (st : Store) : (removeLa
     unfold removeLayers
     simp only [List.foldl]
     exact (ih (layerRemove env st l.digest)).trans (layerRemove_mans env st l.digest)
+
+theorem gcOld_mans (env : Env) (ls : List Layer) (st : Store) : (gcOld env st ls).mans = st.mans := by
+  unfold gcOld
+  split
+  · rfl
+  · exact removeLayers_mans env ls st
 
 theorem layerRemove_blob_keep {env : Env} {st : Store} {d : Digest} {k : String}
     (h : env.inUse st d = true ∨ d.key ≠ k) : (layerRemove env st d).blob k = st.blob k := by
@@ -727,36 +740,54 @@ theorem stepLicense_spec {env : Env} (hinj : HashInj env) (lics : List Bytes) {s
 
 theorem stepParams_spec {env : Env} (hinj : HashInj env) {st : Store} {base0 ls : List Layer}
     {μs : Media → Prop} (hb : BlobsOk env st) (hg : Guard env st) (w : WL env st base0 ls μs)
-    (hμ : μs .params) (p : List (String × String)) :
+    (hμ : μs .params) (p : List (String × String))
+    (hc : ∀ q, Fresh env st ls (fun x => μs x ∧ x ≠ .params) (encodeParams q)) :
     BlobStep env st (stepParams env st ls p).1 ∧
     ∀ ls', (stepParams env st ls p).2 = some ls' →
-      WL env (stepParams env st ls p).1 base0 ls' (fun _ => False) := by
+      WL env (stepParams env st ls p).1 base0 ls' (fun x => μs x ∧ x ≠ .params) := by
   unfold stepParams
   split
   · exact ⟨BlobStep.refl env st, fun ls' h => by cases h⟩
-  · exact ⟨BlobStep.refl env st, fun ls' h => by injection h with e; subst e; exact w.weaken (fun _ h => h.elim)⟩
+  · exact ⟨BlobStep.refl env st, fun ls' h => by injection h with e; subst e; exact w.weaken (fun _ h => h.1)⟩
   · rename_i q _ _
-    obtain ⟨s1, w1⟩ := replaceLayer_WL (μs' := fun _ => False) hinj hb hg w .params hμ (fun _ h => h.elim)
-      (encodeParams q) (fun _ _ h => h.elim)
+    obtain ⟨s1, w1⟩ := replaceLayer_WL hinj hb hg w .params hμ (fun _ h => h) (encodeParams q) (hc q)
     simp only
     exact ⟨s1, fun ls' h => by injection h with e; subst e; exact w1⟩
+
+/-- `setMessages`: nothing for an empty list, else drop-then-store; afterwards nothing more is dropped -/
+theorem stepMessages_spec {env : Env} (hinj : HashInj env) {st : Store} {base0 ls : List Layer}
+    {μs : Media → Prop} (hb : BlobsOk env st) (hg : Guard env st) (w : WL env st base0 ls μs)
+    (hμ : μs .messages) (ms : List (String × String)) :
+    BlobStep env st (stepMessages env st ls ms).1 ∧
+      WL env (stepMessages env st ls ms).1 base0 (stepMessages env st ls ms).2 (fun _ => False) := by
+  cases ms with
+  | nil =>
+    simp only [stepMessages]
+    exact ⟨BlobStep.refl env st, w.weaken (fun _ h => h.elim)⟩
+  | cons m t =>
+    simp only [stepMessages]
+    exact replaceLayer_WL (μs' := fun _ => False) hinj hb hg w .messages hμ (fun _ h => h.elim) _
+      (fun _ _ h => h.elim)
 
 /-- the contents `createModel` stores BEFORE it drops the layers of a media type -/
 def earlier (r : CreateReq) : Media → List Bytes
   | .system => (r.template.map (·.1)).toList
   | .params => (r.template.map (·.1)).toList ++ r.system.toList ++ r.licenses
+  | .messages => (r.template.map (·.1)).toList ++ r.system.toList ++ r.licenses
   | _ => []
 
-def μ3 : Media → Prop := fun x => x = .template ∨ x = .system ∨ x = .params
+/-- the media types whose layers `createModel` may drop (`removeLayer`): template, system, params, messages -/
+def μ3 : Media → Prop := fun x => x = .template ∨ x = .system ∨ x = .params ∨ x = .messages
 
 /-- **The guard on a create request (pinned `removeLayer`, N2).**  Every layer of the starting list that
-    `createModel` may drop (template / system / params) is in use by a stored manifest, or its blob backs no
+    `createModel` may drop (template / system / params / messages) is in use by a stored manifest, or — not
+    for messages layers, which are dropped after the merged parameters were stored — its blob backs no
     layer of another media type in the list and is not the blob of a text the request stores before the
     drop.  Holds trivially when N2 is repaired, for every `from` create, and for files without a recognised
     chat template. -/
 def Apart (env : Env) (st : Store) (ls : List Layer) (r : CreateReq) : Prop :=
   ∀ a ∈ ls, μ3 a.media → env.v.fixKeep = true ∨ env.inUse st a.digest = true ∨
-    ((∀ x ∈ ls, x.media ≠ a.media → x.digest.key ≠ a.digest.key) ∧
+    (a.media ≠ .messages ∧ (∀ x ∈ ls, x.media ≠ a.media → x.digest.key ≠ a.digest.key) ∧
      ∀ c ∈ earlier r a.media, env.hash c ≠ a.digest.key)
 
 /-- what `createModel` does to the store: a `BlobStep`, then (on success) one manifest whose layers are all
@@ -770,7 +801,7 @@ theorem createModel_spec {env : Env} (hinj : HashInj env) {st : Store} (name : N
        (∃ m, (createModel env st name base r) = (setManifest st0 name (.readable m), none) ∧
           (∀ l ∈ m.all, GD env l.digest) ∧ ∀ l ∈ m.all, Complete env st0 l)) := by
   have w : WL env st (base.map (·.1)) (base.map (·.1)) μ3 :=
-    ⟨hcomp, hgd, fun a h hm => (ha a h hm).imp id (fun h' => h'.imp id (fun h'' => h''.1)), fun a h _ => h⟩
+    ⟨hcomp, hgd, fun a h hm => (ha a h hm).imp id (fun h' => h'.imp id (fun h'' => h''.2.1)), fun a h _ => h⟩
   -- the static part of the guard, for any later state with the same manifests
   have fresh : ∀ (st' : Store) (ls : List Layer) (μs' : Media → Prop) (c : Bytes), st'.mans = st.mans →
       (∀ a ∈ ls, μs' a.media → a ∈ base.map (·.1)) → (∀ x, μs' x → μ3 x ∧ c ∈ earlier r x) →
@@ -780,13 +811,14 @@ theorem createModel_spec {env : Env} (hinj : HashInj env) {st : Store} (name : N
     rcases ha a (horig a hal hma) (hμ _ hma).1 with hk | hu | hap
     · exact Or.inl hk
     · exact Or.inr (Or.inl hu)
-    · exact Or.inr (Or.inr (hap.2 c (hμ _ hma).2))
+    · exact Or.inr (Or.inr (hap.2.2 c (hμ _ hma).2))
   unfold createModel
   simp only
   obtain ⟨s1, w1⟩ := stepTemplate_spec hinj hb hg w (Or.inl rfl) r.template (fun c ok hc =>
     fresh st _ _ c rfl (fun a h hm => w.orig a h hm.1) (fun x hx => ⟨hx.1, by
-      rcases hx.1 with h | h | h
+      rcases hx.1 with h | h | h | h
       · exact absurd h hx.2
+      · subst h; simp [earlier, hc]
       · subst h; simp [earlier, hc]
       · subst h; simp [earlier, hc]⟩))
   cases h1 : stepTemplate env st (base.map (·.1)) r.template with
@@ -802,9 +834,10 @@ theorem createModel_spec {env : Env} (hinj : HashInj env) {st : Store} (name : N
       have hg1 := s1.guard hg
       obtain ⟨s2, w2⟩ := stepSystem_spec hinj hb1 hg1 w1 ⟨Or.inr (Or.inl rfl), by decide⟩ r.system (fun c hc =>
         fresh st1 _ _ c s1.mans (fun a h hm => w1.orig a h hm.1) (fun x hx => ⟨hx.1.1, by
-          rcases hx.1.1 with h | h | h
+          rcases hx.1.1 with h | h | h | h
           · exact absurd h hx.1.2
           · exact absurd h hx.2
+          · subst h; simp [earlier, hc]
           · subst h; simp [earlier, hc]⟩))
       cases h2 : stepSystem env st1 l1 r.system with
       | mk st2a l2a =>
@@ -812,11 +845,12 @@ theorem createModel_spec {env : Env} (hinj : HashInj env) {st : Store} (name : N
         simp only at s2 w2
         have hb2a := s2.blobsOk hb1
         obtain ⟨s2l, w2l⟩ := stepLicense_spec hinj r.licenses hb2a w2
-          (by intro h; rcases h.1.1 with h | h | h <;> cases h) (fun c hc =>
+          (by intro h; rcases h.1.1 with h | h | h | h <;> cases h) (fun c hc =>
           fresh st2a _ _ c (s2.mans.trans s1.mans) (fun a h hm => w2.orig a h hm) (fun x hx => ⟨hx.1.1, by
-            rcases hx.1.1 with h | h | h
+            rcases hx.1.1 with h | h | h | h
             · exact absurd h hx.1.2
             · exact absurd h hx.2
+            · subst h; simp [earlier, hc]
             · subst h; simp [earlier, hc]⟩))
         cases h2l : stepLicense env st2a l2a r.licenses with
         | mk st2 l2 =>
@@ -824,18 +858,42 @@ theorem createModel_spec {env : Env} (hinj : HashInj env) {st : Store} (name : N
           simp only at s2l w2l
           have hb2 := s2l.blobsOk hb2a
           have hg2 := s2l.guard (s2.guard hg1)
-          obtain ⟨s3, w3⟩ := stepParams_spec hinj hb2 hg2 w2l ⟨⟨Or.inr (Or.inr rfl), by decide⟩, by decide⟩ r.params
+          obtain ⟨s3, w3⟩ := stepParams_spec hinj hb2 hg2 w2l
+            ⟨⟨Or.inr (Or.inr (Or.inl rfl)), by decide⟩, by decide⟩ r.params (by
+              -- only messages layers may still be dropped after this: in use, or N2 is repaired
+              intro q a hal hma
+              have hmsg : a.media = .messages := by
+                rcases hma.1.1.1 with h | h | h | h
+                · exact absurd h hma.1.1.2
+                · exact absurd h hma.1.2
+                · exact absurd h hma.2
+                · exact h
+              rw [inUse_congr ((s2l.mans.trans s2.mans).trans s1.mans)]
+              rcases ha a (w2l.orig a hal hma.1) hma.1.1.1 with hk | hu | hap
+              · exact Or.inl hk
+              · exact Or.inr (Or.inl hu)
+              · exact absurd hmsg hap.1)
           cases h3 : stepParams env st2 l2 r.params with
-          | mk st3 o3 =>
+          | mk st3a o3 =>
             rw [h3] at s3 w3
             simp only at s3 w3
-            have s03 := ((s1.trans s2).trans s2l).trans s3
+            have s03a := ((s1.trans s2).trans s2l).trans s3
             cases o3 with
-            | none => exact ⟨st3, s03, Or.inl ⟨rfl, rfl⟩⟩
-            | some l3 =>
+            | none => exact ⟨st3a, s03a, Or.inl ⟨rfl, rfl⟩⟩
+            | some l3a =>
               simp only
-              have w3 := w3 l3 rfl
-              have hb3 := s3.blobsOk hb2
+              have w3a := w3 l3a rfl
+              have hb3a := s3.blobsOk hb2
+              have hg3a := s3.guard hg2
+              obtain ⟨s3m, w3m⟩ := stepMessages_spec hinj hb3a hg3a w3a
+                ⟨⟨⟨Or.inr (Or.inr (Or.inr rfl)), by decide⟩, by decide⟩, by decide⟩ r.messages
+              cases h3m : stepMessages env st3a l3a r.messages with
+              | mk st3 l3 =>
+              rw [h3m] at s3m w3m
+              simp only at s3m w3m
+              have s03 := s03a.trans s3m
+              have w3 := w3m
+              have hb3 := s3m.blobsOk hb3a
               let cb := configJSON (base.filterMap (·.2)) (l3.map (·.digest))
               refine ⟨putBlob env st3 cb, s03.trans (putBlob_step env st3 cb), Or.inr ?_⟩
               refine ⟨⟨⟨.config, ⟨.colon, env.hash cb⟩, cb.length⟩, l3⟩, rfl, ?_, ?_⟩
@@ -1257,6 +1315,8 @@ theorem pruneStartup_good {env : Env} (hinj : HashInj env) {st : Store} (hb : Bl
   unfold pruneStartup
   split
   · exact Good.ofBlobStep s1 hb hc _
+  split
+  · exact Good.ofBlobStep s1 hb hc _
   · exact Good.ofBlobStep ((s1.trans (pruneLayers_step env (s1.guard hc))).trans (pruneDirs_step env _)) hb hc _
 
 /-- a `from` create meets the guard `Apart` by itself: every base layer is in use by the source manifest -/
@@ -1314,7 +1374,7 @@ theorem createAt_good {env : Env} (hinj : HashInj env) {st : Store} (hb : BlobsO
         | some mo =>
           simp only
           have hmo : ∀ l ∈ mo.all, GD env l.digest := fun l hl => hc.gd (readableAt_eq_some.mp hold) hl
-          exact ⟨g01.trans (Good.ofBlobStep (removeLayers_step env mo.all g01.canon hmo) g01.blobsOk g01.canon _),
+          exact ⟨g01.trans (Good.ofBlobStep (gcOld_step env mo.all g01.canon hmo) g01.blobsOk g01.canon _),
             fun h => absurd (by simp) h⟩
 
 /-! ### pull -/
@@ -1428,7 +1488,7 @@ theorem pullAt_good {env : Env} {st : Store} (hb : BlobsOk env st) (hc : Guard e
         | some mo =>
           simp only
           have hmo : ∀ l ∈ mo.all, GD env l.digest := fun l hl => hc.gd (readableAt_eq_some.mp hold) hl
-          exact g01.trans (Good.ofBlobStep (removeLayers_step env mo.all g01.canon hmo) g01.blobsOk g01.canon _)
+          exact g01.trans (Good.ofBlobStep (gcOld_step env mo.all g01.canon hmo) g01.blobsOk g01.canon _)
 
 theorem pullAt_mans (env : Env) (st : Store) (name : Name) (reg : Option Manifest)
     (served : List (String × Bytes)) :
@@ -1451,7 +1511,7 @@ theorem pullAt_mans (env : Env) (st : Store) (name : Name) (reg : Option Manifes
         refine Or.inr ⟨m, rfl, ?_⟩
         cases st.readableAt name with
         | none => simp only [setManifest]; rw [h1]
-        | some mo => simp only; rw [removeLayers_mans]; simp only [setManifest]; rw [h1]
+        | some mo => simp only; rw [gcOld_mans]; simp only [setManifest]; rw [h1]
 
 /-- the manifest names an operation may write, after `getExistingName` -/
 def targets (env : Env) (st : Store) (op : Op) (ch : Choice) : List Name :=
@@ -1504,6 +1564,12 @@ theorem stepLicense_mans (env : Env) (lics : List Bytes) (st : Store) (ls : List
   | cons c t ih =>
     simp only [stepLicense, newLayer]
     rw [ih, putBlob_mans]
+
+theorem stepMessages_mans (env : Env) (st : Store) (ls : List Layer) (ms : List (String × String)) :
+    (stepMessages env st ls ms).1.mans = st.mans := by
+  cases ms with
+  | nil => rfl
+  | cons m t => simp only [stepMessages]; exact replaceLayer_mans env st ls .messages _
 
 theorem autoLayers_mans (env : Env) (st : Store) (mt : Meta) : (autoLayers env st mt).1.mans = st.mans := by
   unfold autoLayers
@@ -1590,11 +1656,15 @@ theorem createModel_mans (env : Env) (st : Store) (name : Name) (base : List (La
             have e03 : st3.mans = st.mans := e3.trans (e2l.trans (e2.trans e1))
             cases o3 with
             | none => exact Or.inl e03
-            | some l3 =>
+            | some l3a =>
               simp only
-              refine Or.inr ⟨⟨(newLayer env st3 (configJSON (base.filterMap (·.2)) (l3.map (·.digest))) .config).2, l3⟩, ?_⟩
+              have e3m := stepMessages_mans env st3 l3a r.messages
+              cases h3m : stepMessages env st3 l3a r.messages with
+              | mk st3m l3 =>
+              rw [h3m] at e3m; simp only at e3m ⊢
+              refine Or.inr ⟨⟨(newLayer env st3m (configJSON (base.filterMap (·.2)) (l3.map (·.digest))) .config).2, l3⟩, ?_⟩
               simp only [setManifest, newLayer, putBlob_mans]
-              rw [e03]
+              rw [e3m, e03]
 
 theorem createAt_mans (env : Env) (st : Store) (r : CreateReq) (name : Name) (frev : Bool) :
     (createAt env st r name frev).1.mans = st.mans ∨
@@ -1624,7 +1694,7 @@ theorem createAt_mans (env : Env) (st : Store) (r : CreateReq) (name : Name) (fr
           | none => exact h
           | some mo =>
             simp only
-            rw [removeLayers_mans]
+            rw [gcOld_mans]
             exact h
 
 /-- the manifest of any name other than the (resolved) target is the same file after the operation -/
@@ -1661,7 +1731,9 @@ theorem step_man_frame (env : Env) (st : Store) (op : Op) (ch : Choice) (n : Nam
       rw [delManifest_man]; simp [hn]
   | prune =>
     simp only [step, pruneStartup]
-    split <;> rfl
+    split
+    · rfl
+    · split <;> rfl
   | plant s d =>
     simp only [step]
     simp only [targets, List.mem_singleton] at hn
